@@ -42,11 +42,12 @@ pub trait FactoryModule:
 
         let minter_bytes;
 
+        // The service itself is only ever a temporary minter (until the initial supply is minted)
+        require!(minter != own_address, "Invalid minter");
+
         if initial_supply > 0 {
             minter_bytes = own_address.as_managed_buffer()
         } else if !minter.is_zero() {
-            require!(minter != own_address, "Invalid minter");
-
             minter_bytes = minter.as_managed_buffer()
         } else {
             sc_panic!("Zero supply token");
